@@ -246,6 +246,7 @@ func runC15() {
 	}
 	g := &egen{rng: rng, wrong: 20, hist: rep.Histogram}
 	var srcs []string
+	srcs = append(srcs, "((IsPos(I) ? -7 : Add(I, 7)) in 2..8)", "Inc(I) in 1..9", "Inc(I) not in 1..9", "P?.Next?.Get(2, I16, 0)", "P?.Get(1)", "St.Next?.Get(1, 2)")
 	ints := []string{"I", "I8", "I16", "I32", "I64", "U", "U8", "U16", "U32", "U64", "1", "300", "F64", "Any"}
 	for _, a := range ints {
 		for _, b := range ints {
@@ -345,6 +346,10 @@ func runC15() {
 					key := "C15-modes-disagree"
 					if c15MixedRetypedArg(src) {
 						key = "C15-arg-retype-mixed"
+					} else if cqValue(normSeq(succ[i].out)) == cqValue(normSeq(succ[0].out)) && c15CallInRangeLeft(src) &&
+						(succ[0].name == "Eval") != (succ[i].name == "Eval") {
+						// equal values, different call logs, Eval (never optimized) against a Compile variant (optimizer on)
+						key = "C15-in-range-double-eval"
 					}
 					rep.fail(Failure{Key: key, What: "two compile / environment variants that both succeed return different results",
 						Input: map[string]interface{}{"src": src, "env": ei, "a": succ[0].name, "b": succ[i].name},
@@ -530,3 +535,31 @@ type visitFn func(n *ast.Node)
 
 func (f visitFn) Enter(n *ast.Node) {}
 func (f visitFn) Exit(n *ast.Node)  { f(n) }
+
+// c15CallInRangeLeft: `x in a..b` / `x not in a..b` whose left operand contains a call: the optimizer rewrites it to
+// `x >= a and x <= b` and x is evaluated twice (finding C02-in-range-double-eval seen from C15: Eval never optimizes)
+func c15CallInRangeLeft(src string) bool {
+	tree, err := parser.Parse(src)
+	if err != nil {
+		return false
+	}
+	found := false
+	hasCall := func(n ast.Node) bool {
+		r := false
+		ast.Walk(&n, visitFn(func(m *ast.Node) {
+			switch (*m).(type) {
+			case *ast.FunctionNode, *ast.MethodNode:
+				r = true
+			}
+		}))
+		return r
+	}
+	ast.Walk(&tree.Node, visitFn(func(n *ast.Node) {
+		if b, ok := (*n).(*ast.BinaryNode); ok && (b.Operator == "in" || b.Operator == "not in") {
+			if r, ok := b.Right.(*ast.BinaryNode); ok && r.Operator == ".." && hasCall(b.Left) {
+				found = true
+			}
+		}
+	}))
+	return found
+}
